@@ -378,6 +378,9 @@ def r18d(ctx):
 
     def neg_test(t, env):
         """True if `t` is `days < 0` (on the days field, or on the total T: T < 0 iff days < 0), False for `>= 0`, None otherwise."""
+        if isinstance(t, ast.UnaryOp) and isinstance(t.op, ast.Not):
+            inner = neg_test(t.operand, env)
+            return None if inner is None else not inner
         if isinstance(t, ast.Compare) and len(t.ops) == 1:
             l, r = ev(t.left, env), ev(t.comparators[0], env)
             if l is not None and r is not None and (l == sym("D") or l == T) and not r.d and r.c == 0:
